@@ -17,7 +17,7 @@ for p in props:
         'replay_cmd_template': './check %s --replay {path}' % pid,
         'engine': 'verus-extract' + ('+kani' if pc.get('kani') else ''),
         'level_claimed': {'category': pc.get('level', 'proof'), 'text': pc.get('explanation', ''), 'design_ref': 'DESIGN.md section 6, ' + pid},
-        'level_note': '; '.join(pc.get('assumptions', []) + ['stand-in contracts for bytes/dashmap/atomics/clock/tokio/std text-number functions are assumed; extraction rules R1-R13 (DESIGN 3, 12.2)', 'when the verifier cannot decide (lost anchor, construct outside the subset) the run-time twins of the property statement are run on the real code and a concrete failing input is reported as a VIOLATION; otherwise the result stays UNDECIDED (exit 2)']),
+        'level_note': '; '.join(pc.get('assumptions', []) + ['stand-in contracts for bytes/dashmap/atomics/clock/tokio/std text-number functions are assumed; extraction rules R1-R14 (DESIGN 3, 12.2, 12.7)', 'when the verifier cannot decide (lost anchor, construct outside the subset) the run-time twins of the property statement are run on the real code and a concrete failing input is reported as a VIOLATION; otherwise the result stays UNDECIDED (exit 2)']),
         'technique': pc.get('technique', 'contract-based deductive verification: Verus (Z3) on function bodies extracted from /repo each run, contracts spliced as annotations'),
     })
 m = {
@@ -26,9 +26,11 @@ m = {
     'hooks': {'guard': 'none', 'enable': 'no hooks: function bodies are extracted from /repo on every run; Kani harnesses are injected into scratch copies', 'baseline_off_cmd': 'cd /repo && cargo test --workspace --no-fail-fast --offline', 'source_commits': [], 'add_only': True},
     'engines': [
         {'name': 'verus-extract', 'path': 'tools/vf.py', 'serves_properties': [c['property_id'] for c in checks], 'kind_free_text': 'extract (tools/assemble.py) -> splice contracts (specs/units/*.rs) -> verus single-file -> classify'},
+        {'name': 'kani', 'path': 'tools/kanitool.py', 'serves_properties': sorted(k for k, v in conf['properties'].items() if v.get('kani')), 'kind_free_text': 'function contract of MemoryStore::delete (complete, loop-free, full u64 domain) and a bounded remove_if harness, on a scratch copy of /repo with an array-backed dashmap stand-in'},
+        {'name': 'run-time twins', 'path': 'tools/witness.py', 'serves_properties': [c['property_id'] for c in checks], 'kind_free_text': 'NOT part of the proofs: witness search for failed obligations, fallback after an UNDECIDED verifier result, bounded stand-ins (labelled bounded) and the thorough tier exploration; drivers in replay/ run the real crate'},
     ],
     'checks': checks,
-    'notes': 'See DESIGN.md. fix: commits in /repo are listed in known_findings.json (fixed entries suppress nothing).',
+    'notes': 'See DESIGN.md (section 12 is the as-built record: 12.4 results per property, 12.5 the eleven fix: commits, 12.7 eight rounds of seeded changes, 12.10 the whole-connection theorem, 12.11 harmless refactorings and the false alarms they exposed, 12.12 what decides what). fix: commits in /repo are listed in known_findings.json (fixed entries suppress nothing). Exit codes: 0 held, 1 VIOLATION, 2 UNDECIDED (never an alarm). tools/regress_seeds.sh and tools/regress_benign.sh replay the kept seeded changes and refactorings.',
     'not_applicable': [{'property_id': p['id'], 'reason': na.get(p['id'], 'check not built yet (work in progress; DESIGN.md section 6)')} for p in props if p['id'] not in conf['properties']],
 }
 json.dump(m, open(os.path.join(ROOT, 'MANIFEST.json'), 'w'), indent=1)
